@@ -83,6 +83,14 @@ CHECKS = {
         note="menus of 3 arrays per length plus wrong lengths n+1, n-1, 1 (broadcastable); invariants only demand what the statement says",
         design="DESIGN.md §2 C12",
     ),
+    "C13": dict(
+        level="fault_enumeration",
+        technique="exhaustive enumeration of frame sequences (length<=3 quick, <=4 + 50 thorough) x formats x iterable kinds on the real dump_many/load_many, plus every-line truncation and every-numeric-field corruption of multi-frame files",
+        text="All sequences over a 6-frame menu for XYZ/PDB/MOL2/SDF given as list, generator and generator raising at each item; event log of pulls and writes (laziness); reloaded frames bit-identical to per-frame dump_one+load_one; "
+        "truncation after every line and {x,1e,-,999999} in every numeric field of every non-last frame for XYZ, PDB, MOL2, SDF, GRO, extXYZ; corpus FCHK trajectories vs an independent parse.",
+        note="a truncated/corrupted last frame may be dropped; a corrupted field may change only its own frame",
+        design="DESIGN.md §2 C13",
+    ),
     "C14": dict(
         level="exploration",
         technique="exhaustive enumeration of shell sequences / orbital sets on the real conversion functions, independent function evaluator as oracle",
